@@ -14,7 +14,6 @@ const preludeBase = `(set-logic ALL)
 (declare-datatypes ((Unit 0)) (((unit))))
 ; ---- dynamic values -------------------------------------------------------
 (declare-fun typeof (Val) Int)
-(declare-fun wsink (Val) Val)
 (declare-fun nil_val () Val)
 (assert (= (typeof nil_val) 0))
 (assert (forall ((v Val)) (! (=> (= (typeof v) 0) (= v nil_val)) :pattern ((typeof v)))))
